@@ -62,6 +62,11 @@ def oversize_job(pc, extras):
             res.evaluations += 1
             res.nontrivial_count += 1
             fw = _dfu.firmware(extra, n, 0)
+            # every third length: the part that does not fit is pure 0xFF (what erased flash holds) or pure 0x00 padding
+            if extra % 3 == 1:
+                fw = fw[:pc * 1024] + b'\xff' * extra
+            elif extra % 3 == 2:
+                fw = fw[:pc * 1024 - 7] + b'\x00' * (extra + 7)
             r = _dfu.run(pc, fw, {}, d)
             dev = r['device']
             if dev.dnloads or bytes(dev.flash) != dev.initial:
@@ -104,7 +109,7 @@ def run(tier):
     chk.merge(env.run_shards(_dispatch, jobs))
     chk.exhaustive = True
     chk.rule = ('(a) oversize: every length size+1..size+2048 (16 KiB variant; every 16th on the others in quick, all in thorough) and larger ones '
-                'on the 4 flash sizes: no DNLOAD may reach the simulated device, flash unchanged, exit != 0; (b) fault enumeration: runs of 1, 2, '
+                '(random content, or the excess being pure 0xFF / 0x00 fill) on the 4 flash sizes: no DNLOAD may reach the simulated device, flash unchanged, exit != 0; (b) fault enumeration: runs of 1, 2, '
                 '3 and 16 pages x every single injection point (erase k, set-address k, write k) x status 1..15 x device behaviour {spec: enters '
                 'dfuERROR and stalls, lenient: reports the status once and carries on} - complete; plus seed-drawn double injections with busy '
                 'schedules. oracle: done! not printed, exit status != 0, output names the failure. non-trivial = every injection that the run '
